@@ -216,6 +216,9 @@ type c01Run struct {
 
 var activeRun atomic.Pointer[c01Run]
 
+// delaySubs: environment id -> chan struct{} notified for every "attempt delayed" line of that environment.
+var delaySubs sync.Map
+
 // delayHook observes the "attempt delayed" branch of TryTransition / TeardownEnvironment.
 type delayHook struct{}
 
@@ -223,6 +226,14 @@ func (delayHook) Levels() []logrus.Level { return []logrus.Level{logrus.WarnLeve
 func (delayHook) Fire(e *logrus.Entry) error {
 	if !strings.Contains(e.Message, "attempt delayed") {
 		return nil
+	}
+	if p, _ := e.Data["partition"].(string); p != "" {
+		if ch, ok := delaySubs.Load(p); ok { // C10: a driver waits for "the other goroutine is parked on the mutex"
+			select {
+			case ch.(chan struct{}) <- struct{}{}:
+			default:
+			}
+		}
 	}
 	run := activeRun.Load()
 	if run == nil {
